@@ -44,6 +44,12 @@ CHECKS = {
     "C18": dict(ref="6/C18", tech="TLC on StaticList.tla (pointer-level transcription of push_back / remove / clear; refinement to a sequence; complete state space over 6 nodes under a VIEW hiding the history) + every operation sequence up to the bound replayed on the real static_list and on the library's registration objects, validated by TLC (TraceStaticList.tla)",
                 text="The refinement invariants hold on the complete reachable state space for 6 nodes (any history length). Every sequence of <=6 operations over 3 nodes (thorough: <=7 over 4, 78,125 sequences) and random sequences of 50..3000 operations over 8 nodes are executed on an instrumented node type (links compared) and on class_declaration / method / definition_info objects with constructor- and destructor-driven registration; iteration order, size(), empty() after every operation must equal the specification.",
                 note="nodes live in zero-initialised storage, like the static objects the library is used with"),
+    "C19": dict(ref="6/C19", tech="TLC on FwdDecl.tla (character-level transcription of write_forward_declarations checked against a stack acceptor on every name set of the universe; broken-writer negative control) + TLC-emitted and random name sets and grammar-generated type descriptions passed to the real generator, output tokenised and validated by TLC (TraceFwd.tla)",
+                text="Every set of <=3 qualified names over 39 names built from identifiers a, ab, b at <=3 namespace levels (9,920 sets; thorough also <=4 names and 5 identifiers on the model), random sets of up to 40 names of depth <=6, and type descriptions from a grammar of class names, fundamental types, pointers, references, templates, function types, std:: and yorel:: entities: the written text must be balanced and declare exactly the requested / generated class names, each once, in its namespace.",
+                note="cv-qualifiers and '(anonymous namespace)' are outside the stated grammar and not generated; compiling the output is not part of the quick check"),
+    "C12": dict(ref="6/C12", tech="TLC on Offsets.tla (layout of slots_strides vs. the emitter's and the consistency check's indexing, arity 1..6, interleaved-reading negative control) + real generator output parsed and validated by TLC against the installed layout; methods compiled with mutable static_offsets<> dispatch through the static path and are validated like C01",
+                text="For random registries with methods of arity 1..4 (shapes with non-virtual and virtual_ptr parameters) under 9 policies: the numbers written by write_static_offsets must equal the installed slots and strides position by position; loaded into static_offsets<> they must give the oracle's outcome tables; under checked policies each single perturbed number must be reported (static slot / stride error) on every call; repeated after a second update.",
+                note="the generated header is emulated by specialisations with mutable arrays filled with the parsed numbers; compiling the emitted text is not part of this check"),
     "C17": dict(ref="6/C17", tech="TLC trace validation of update reports against HasGap/HasAmbiguity over all and over concrete-only tuples (ReportOK in Yomm2.tla)",
                 text="Every registry of the bounded universes x assignments of abstract flags (all 2^N for N<=3; thorough: all) is updated and the returned report compared with an enumeration of all class tuples by the oracle; cells is compared with the number of multi-method cells the compiler object holds.",
                 note="iff-content of the report only (counts are not compared, the statement does not define them)"),
